@@ -476,7 +476,7 @@ func c12Invalid(e *core.Env, rep *core.Report, bin, root string) {
 		{conv: []string{"wrapErrors"}, meth: []string{"wrapErrorsUsing vcase/w/ea"}}, {conv: []string{"wrapErrorsUsing vcase/w/ea"}, meth: []string{"wrapErrors"}},
 		{cli: []string{"wrapErrors"}, meth: []string{"wrapErrorsUsing vcase/w/ea"}}, {meth: []string{"wrapErrors", "wrapErrorsUsing vcase/w/ea"}},
 	}
-	base := func(conv, meth, fn []string) string {
+	base := func(conv, meth, fn []string, sig string) string {
 		var sb strings.Builder
 		sb.WriteString("package p\n\ntype In struct{ V int; Nested struct{ W int } }\ntype Out struct{ V int }\nfunc F(s string) string { return s }\nfunc New() Out { return Out{} }\n\n")
 		if len(fn) > 0 {
@@ -495,7 +495,9 @@ func c12Invalid(e *core.Env, rep *core.Report, bin, root string) {
 		for _, l := range meth {
 			sb.WriteString("\t// goverter:" + l + "\n")
 		}
-		if len(fn) > 0 {
+		if sig != "" {
+			sb.WriteString("\t" + sig + "\n}\n")
+		} else if len(fn) > 0 {
 			sb.WriteString("\tConvert(source In, c Ctx) Out\n}\n")
 		} else {
 			sb.WriteString("\tConvert(source In) Out\n}\n")
@@ -507,6 +509,7 @@ func c12Invalid(e *core.Env, rep *core.Report, bin, root string) {
 		cli        []string
 		conv, meth []string
 		fn         []string
+		sig        string
 		why, line  string
 		level      string
 	}
@@ -534,6 +537,12 @@ func c12Invalid(e *core.Env, rep *core.Report, bin, root string) {
 	jobs = append(jobs, job{name: "fctl0", conv: []string{"extend Fx"}, meth: []string{"context c"}, fn: []string{"context c"}, why: "control", line: "context c", level: "function"})
 	jobs = append(jobs, job{name: "fctl1", conv: []string{"extend Fx.*"}, meth: []string{"context c"}, fn: []string{"context c"}, why: "control", line: "context c", level: "function"})
 	jobs = append(jobs, job{name: "fctl2", meth: []string{"context c", "map V V | Fx"}, fn: []string{"context c"}, why: "control", line: "context c", level: "function"})
+	// field settings on methods whose target is no struct / pointer to struct
+	for i, sig := range []string{"Convert(source []In) []Out", "Convert(source *[]In) *[]Out", "Convert(source *In) **Out", "Convert(source map[string]In) *map[string]Out", "Convert(source In) *[]Out"} {
+		for k, l := range []string{"ignore V", "map V V", "autoMap Nested"} {
+			jobs = append(jobs, job{name: fmt.Sprintf("p%02d%d", i, k), meth: []string{l}, sig: sig, why: "field setting on a method whose target is not a struct or a pointer to a struct", line: l + " on " + sig, level: "method"})
+		}
+	}
 	// settings that need the struct format, in both orders and across levels
 	for i, l := range []string{"name Foo", "struct:comment hello"} {
 		jobs = append(jobs, job{name: fmt.Sprintf("o%02da", i), conv: []string{"output:format function", l}, why: "struct-only setting with output:format function", line: l + " after output:format function", level: "converter"})
@@ -551,7 +560,7 @@ func c12Invalid(e *core.Env, rep *core.Report, bin, root string) {
 		// quick: a seed-rotated half
 		var sel []job
 		for i, j := range jobs {
-			if (i+int(e.Seed))%2 == 0 || strings.HasPrefix(j.name, "w") || strings.HasPrefix(j.name, "f") || strings.HasPrefix(j.name, "o") {
+			if (i+int(e.Seed))%2 == 0 || strings.HasPrefix(j.name, "w") || strings.HasPrefix(j.name, "f") || strings.HasPrefix(j.name, "o") || strings.HasPrefix(j.name, "p") {
 				sel = append(sel, j)
 			}
 		}
@@ -568,7 +577,7 @@ func c12Invalid(e *core.Env, rep *core.Report, bin, root string) {
 			}
 			return o
 		}
-		writeFiles(dir, map[string]string{"p/input.go": base(fix(j.conv), fix(j.meth), j.fn), "ea/ea.go": fmt.Sprintf(wrapPkg, "ea")})
+		writeFiles(dir, map[string]string{"p/input.go": base(fix(j.conv), fix(j.meth), j.fn, j.sig), "ea/ea.go": fmt.Sprintf(wrapPkg, "ea")})
 		args := []string{"gen"}
 		for k, l := range fix(j.cli) {
 			flag := "-g"
